@@ -635,18 +635,51 @@ impl Runner {
             }
         }
         // UI elements
+        // the list gives the Interaction of each existing UI element; when it gets shorter the surplus elements
+        // disappear while in whatever state they were: even positions are despawned, odd ones lose the component
         let ui = ilist(&a[5]);
-        while self.ui.len() < ui.len() {
-            let e = world.spawn(Interaction::None).id();
-            self.ui.push(e);
-        }
-        for (i, &e) in self.ui.iter().enumerate() {
-            let v = match ui.get(i).copied().unwrap_or(0) {
-                0 => Interaction::None,
-                1 => Interaction::Hovered,
-                _ => Interaction::Pressed,
-            };
-            *world.get_mut::<Interaction>(e).unwrap() = v;
+        for i in 0..ui.len().max(self.ui.len()) {
+            let want = ui.get(i).copied();
+            let have = self.ui.get(i).copied().filter(|&e| world.get_entity(e).is_ok());
+            match (want, have) {
+                (Some(v), have) => {
+                    let v = match v {
+                        0 => Interaction::None,
+                        1 => Interaction::Hovered,
+                        _ => Interaction::Pressed,
+                    };
+                    let e = match have {
+                        Some(e) => e,
+                        None => {
+                            let e = world.spawn_empty().id();
+                            if i < self.ui.len() {
+                                self.ui[i] = e;
+                            } else {
+                                self.ui.push(e);
+                            }
+                            e
+                        }
+                    };
+                    match world.get_mut::<Interaction>(e) {
+                        Some(mut cur) => {
+                            if *cur != v {
+                                *cur = v;
+                            }
+                        }
+                        None => {
+                            world.entity_mut(e).insert(v);
+                        }
+                    }
+                }
+                (None, Some(e)) => {
+                    if i % 2 == 0 {
+                        world.despawn(e);
+                    } else {
+                        world.entity_mut(e).remove::<Interaction>();
+                    }
+                }
+                (None, None) => {}
+            }
         }
     }
 
@@ -733,7 +766,7 @@ impl Runner {
 
 pub fn run_scenario(sc: &Sx) -> String {
     let (h, a) = sc.app();
-    if h == "multi" {
+    if h == "multi" || h == "rmulti" {
         // several scenarios judged together (C17): each runs in its own App
         let ts: Vec<String> = a[0].list().iter().map(run_scenario).collect();
         return format!("(mtrace [{}])", ts.join(" "));
